@@ -179,6 +179,7 @@ PROPS = {
         assumptions=["base58btc and the key (un)marshallers are parameters of the model with explicit contracts"],
     ),
     "C06": dict(
+        tie=["Ucan.Props.Tie.DecodeBridge"],
         props_module="Ucan.Props.C06",
         streams=["token"],
         # incl. sig-old-field, sig-concurrent, hdr-old-sig; field-special: a correctly signed value must come out as signed
@@ -191,7 +192,7 @@ PROPS = {
         level_note=_TOKEN_NOTE + " Conditional on EUF-CMA of the signature schemes: the theorems reduce 'no accepted modification changes a field' to 'no valid signature on a different message', they do not prove unforgeability.",
     ),
     "C07": dict(
-        tie=["Ucan.Props.Tie.ParseTime", "Ucan.Props.Tie.Decode"],
+        tie=["Ucan.Props.Tie.ParseTime", "Ucan.Props.Tie.Decode", "Ucan.Props.Tie.DecodeBridge"],
         props_module="Ucan.Props.C07",
         streams=["token"],
         filter=_token_filter(["token.roundtrip"]),
@@ -200,7 +201,7 @@ PROPS = {
         level_note=_TOKEN_NOTE + " The component round trips are hypotheses of the theorems (DID: C16_parse_print; command: C15_parse_ok_iff; policy: C14_policy_roundtrip + the not-yet-proved selector print/parse idempotence).",
     ),
     "C10": dict(
-        tie=["Ucan.Props.Tie.ParseTime", "Ucan.Props.Tie.Command", "Ucan.Props.Tie.CommandApi", "Ucan.Props.Tie.Decode"],
+        tie=["Ucan.Props.Tie.ParseTime", "Ucan.Props.Tie.Command", "Ucan.Props.Tie.CommandApi", "Ucan.Props.Tie.Decode", "Ucan.Props.Tie.DecodeBridge"],
         props_module="Ucan.Props.C10",
         streams=["token"],
         # field cases count in ONE direction: something malformed is accepted (or accepted with another value than the model
